@@ -23,7 +23,7 @@ from ..viewutil import Universe, Graph, Sandbox, cover_walks, shortest_path_to, 
 WORKERS = int(os.environ.get("VERIF_WORKERS", "16"))
 SIG = {"D1": "create_linked_view:job_ids-empty:links-an-unselected-job",
        "D2": "create_linked_view:colliding-value-texts:jobs-share-one-link",
-       "D3": "create_linked_view:directory-named-job:rerun-raises-OSError"}
+       "D3": "create_linked_view:directory-named-job:taken-for-a-link"}
 ALL5 = ["auto", "id", "tree", "flat", "const"]
 
 
@@ -39,7 +39,7 @@ def universes(quick):
         nested = nested + [{"n": {"x": 2, "y": "v.1"}, "a": 2}]
         collide = collide + [{"x/y": 1, "a": 1.5}]
         jobkey = jobkey + [{"a": "job", "job": 1}]
-    us = [Universe("hom", hom, ["auto", "tree", "flat"] if quick else ALL5), Universe("het", het, ["auto", "id", "tree"]),
+    us = [Universe("hom", hom, ["auto", "tree", "flat"] if quick else ["auto", "id", "tree", "flat"]), Universe("het", het, ["auto", "id", "tree"]),
           Universe("nested", nested, ["auto", "flat", "const"]),
           Universe("collide", collide, ["auto", "id"], orders=["asc", "desc"]),
           Universe("jobkey", jobkey, ["auto"], speckey="job")]
@@ -417,12 +417,14 @@ def run(ctx):
     flags = _probe(ctx.work)
     ctx.cov["deviation_flags_probed"] = flags
     unis = universes(ctx.quick)
+    if os.environ.get("VERIF_C17_ONLY"):          # development aid: restrict the run to some universes
+        unis = [u for u in unis if u.name in os.environ["VERIF_C17_ONLY"].split(",")]
     shutil.copy(os.path.join(tlc.SPEC_ROOT, "exchange", "LinkedView.tla"), ctx.work)
     tw = max(2, WORKERS // 4)
     with ThreadPoolExecutor(max_workers=4) as ex:
         results = list(ex.map(_tlc_universe, [(ctx.work, u, flags, tw, True) for u in unis]))
     _G["__quick__"] = ctx.quick
-    _G["__scratch_every__"] = 4 if ctx.quick else 1      # real sibling from-scratch build: every 4th edge (quick) / every edge
+    _G["__scratch_every__"] = 4 if ctx.quick else 2      # real sibling from-scratch build: every 4th edge (quick) / every 2nd
     lap("TLC graphs + requirement runs done")
     cex = {}
     for r in results:
